@@ -1664,3 +1664,13 @@ Proof.
   split; [exact Hn|]. split; [rewrite Epr; apply in_or_app; left; exact Hn|].
   intros Hin. apply (hb_no_negative _ _ _ _ _ _ _ _ _ H) in Hin. lia.
 Qed.
+
+(* the gossip model's fanout selection is the router model's [fanout_pub] on the core state *)
+Lemma fanout_for_publishing_core P sc g t chosen :
+  fanout_for_publishing P sc g t chosen
+  = match fanout_pub (gCore P) sc (core g) t chosen with Some (s', l) => Some (set_core g s', l) | None => None end.
+Proof.
+  unfold fanout_for_publishing, fanout_pub. destruct (aget_l t (fanout (core g))).
+  - destruct (pick_ok chosen _ (pD (gCore P))); reflexivity.
+  - destruct chosen; reflexivity.
+Qed.
